@@ -72,6 +72,9 @@ pub enum Desc {
     /// Plain bitvector with a subset of supports: bit 0 rank, bit 1 select, bit 2 select_zero.
     Bv { bits: BitsDesc, supports: u8 },
     OptBv(Option<(BitsDesc, u8)>),
+    OptSparse(Option<BitsDesc>),
+    OptRl(Option<BitsDesc>),
+    OptWm(Option<Vec<u64>>),
     Sparse(BitsDesc),
     /// Multiset sparse vector: universe and non-decreasing values.
     SparseMulti { universe: usize, values: Vec<usize> },
@@ -197,6 +200,9 @@ pub fn build(d: &Desc) -> Box<dyn Ser> {
         Desc::OptInt(o) => Box::new(o.as_ref().map(|(w, v)| int_vector(*w, v))),
         Desc::Bv { bits, supports } => Box::new(bv_with_supports(bits, *supports)),
         Desc::OptBv(o) => Box::new(o.as_ref().map(|(b, s)| bv_with_supports(b, *s))),
+        Desc::OptSparse(o) => Box::new(o.as_ref().map(|b| sparse_from_model(&b.model()).expect("catalogue: sparse builder refused a valid set"))),
+        Desc::OptRl(o) => Box::new(o.as_ref().map(|b| rl_from_model(&b.model()).expect("catalogue: rl builder refused a valid run list"))),
+        Desc::OptWm(o) => Box::new(o.as_ref().map(|v| WaveletMatrix::from(v.clone()))),
         Desc::Sparse(b) => Box::new(sparse_from_model(&b.model()).expect("catalogue: sparse builder refused a valid set")),
         Desc::SparseMulti { universe, values } => Box::new(sparse_multiset(*universe, values)),
         Desc::Rl(b) => Box::new(rl_from_model(&b.model()).expect("catalogue: rl builder refused a valid run list")),
@@ -289,6 +295,12 @@ pub fn catalogue(big: bool, seed_pattern: u64) -> Vec<Desc> {
             c.push(Desc::Int { width: w, values: (0..9u64).map(|i| (i.wrapping_mul(0x9E37_79B9_7F4A_7C15) ^ seed_pattern) & m).collect() });
         }
     }
+    c.push(Desc::OptSparse(None));
+    c.push(Desc::OptSparse(Some(BitsDesc::Letters(vec![Letter::Every(3, 200), Letter::Zeros(13)]))));
+    c.push(Desc::OptRl(None));
+    c.push(Desc::OptRl(Some(BitsDesc::Runs { pairs: std::iter::repeat((1u64, 1u64)).take(288).collect(), tail: 3 })));
+    c.push(Desc::OptWm(None));
+    c.push(Desc::OptWm(Some(vec![3, 1, 4, 1, 5, 9, 2, 6])));
     c.push(Desc::OptInt(None));
     c.push(Desc::OptInt(Some((13, vec![1, 2, 8191]))));
     c.push(Desc::SparseMulti { universe: 5, values: vec![0, 0, 3, 3, 3, 4] });
